@@ -277,6 +277,42 @@ def check_driver(db, rep):
                     rep.sample('D.driver', 'adaptive: driver(sys, stepper, H, ABS, REL); apply(&t, t+dt, system); free')
 
 
+def check_enablement(db, rep):
+    """D.enable: for each of the 32 switch settings, reached through the public setters from a fresh solver, Evolve
+    integrates (applies the ODE driver exactly once) iff at least one term is enabled: an enabled term that does not turn
+    the integration on contributes nothing, which is not the documented equation"""
+    unit = db.unit('SQuIDS')
+    fE = db.one('SQuIDS', 'squids::SQuIDS::Evolve', 1)
+    cfg = (2, 2, 1, 1)
+    n = 0
+    for bits in itertools.product((0, 1), repeat=5):
+        n += 1
+        hooks = sm.SquidsHooks(cfg[1], driver_status=0)
+        this, hooks, it = sm.new_solver(db, *cfg, hooks=hooks)
+        # enable in two orders: as listed, and reversed (the last setter called must not undo an earlier one)
+        for order in (SWITCHES, tuple(reversed(SWITCHES))):
+            for name in order:
+                b = bits[SWITCHES.index(name)]
+                it.call(db.one('SQuIDS', 'squids::SQuIDS::Set_' + name, 1), this, [1 if b else 0])
+            hooks.driver = []
+            try:
+                it.call(fE, this, [Poly.var('dt')])
+            except Thrown as t:
+                rep.fail('D.enable', 'Evolve/switches=%s' % ''.join(map(str, bits)), unit.loc(t.node), 'an integration step', 'throw: %s' % t.what, fE['name'])
+                break
+            applied = [e for e in hooks.driver if e[0] in ('apply', 'apply_fixed_step')]
+            want = 1 if any(bits) else 0
+            if len(applied) != want:
+                on = [nm for nm, b in zip(SWITCHES, bits) if b]
+                rep.fail('D.enable', 'Evolve/switches=%s' % ''.join(map(str, bits)), unit.loc(fE),
+                         'the ODE driver is applied once iff a term is enabled (enabled: %s)' % (', '.join(on) or 'none'),
+                         'driver applied %d times: %s' % (len(applied), 'the enabled terms are never integrated' if want else 'integration although every term is disabled'), fE['name'])
+                break
+        else:
+            rep.ok('D.enable')
+    rep.floor('D.enable', n, 32)
+
+
 def run(db, rep, tier):
     rep.trusted += ['clang 14 AST of /repo sources', 'sqdump extractor + abstract interpreter',
                     'user terms are uninterpreted symbols indexed by their call arguments',
@@ -289,3 +325,4 @@ def run(db, rep, tier):
         n += check_config(db, rep, cfg, tier)
     rep.floor('D.rhs', n, 64)
     check_driver(db, rep)
+    check_enablement(db, rep)
